@@ -443,6 +443,7 @@ impl FixedCapacityMemoryPool {
         }
 
         // Use mutex to prevent race conditions during initialization
+        verif_lock_scope!(_vi, &self.init_mutex as *const _);
         let mut initialized = self.init_mutex.lock()
             .map_err(|e| ZiporaError::resource_busy(format!("Init mutex poisoned: {}", e)))?;
         if !*initialized {
